@@ -977,3 +977,124 @@ pub fn check_concurrent(case: &ConcurrentCase, cx: &mut Cx) -> Result<Result<(),
     }
     Ok(Ok(()))
 }
+
+// ---------------------------------------------------------------------------------------------
+// a saturated signal: an event its signal CLAIMED is not exported through another signal just because that
+// signal's queue is full (what happens to the queue itself is C09's business)
+
+#[derive(Serialize, Deserialize, Debug, Clone, PartialEq)]
+pub struct SaturatedCase {
+    pub wire: Wire,
+    /// the saturated signal: traces (qualified spans) when true, metrics (qualified samples) when false
+    pub spans: bool,
+    /// events emitted beyond the 10 000 the queue holds
+    pub beyond: u8,
+    /// genuine log events emitted afterwards
+    pub logs: u8,
+    /// configure the third signal too
+    pub third: bool,
+}
+
+const OTLP_QUEUE_CAPACITY: u64 = 10_000;
+
+pub fn check_saturated(case: &SaturatedCase, cx: &mut Cx) -> Result<Result<(), String>, vcore::Fail> {
+    let victim = if case.spans { Signal::Traces } else { Signal::Metrics };
+    let w = Some(case.wire);
+    let cfg = Config {
+        logs: w,
+        traces: if case.spans || case.third { w } else { None },
+        metrics: if !case.spans || case.third { w } else { None },
+    };
+    cx.class(if case.spans { "saturated:traces-queue-full-with-logs-configured" } else { "saturated:metrics-queue-full-with-logs-configured" });
+    cx.class(&format!("wire:{:?}", case.wire));
+    cx.nontrivial(true);
+    let c = match Collector::try_start() {
+        Ok(c) => c,
+        Err(e) => return Ok(Err(e)),
+    };
+    if matches!(case.wire, Wire::GrpcProto | Wire::GrpcProtoGzip) {
+        if let Err(e) = c.ensure_grpc() {
+            return Ok(Err(e));
+        }
+    }
+    c.keep_payloads(false);
+    // the victim's endpoint holds every request for good; logs is healthy
+    c.set_default(victim, collector::Decision::Hold(99));
+    let otlp = build_otlp(&c, &cfg);
+    let spec = export_spec(case.spans);
+    if model(&cfg, &spec).allowed != [route_of(victim)] {
+        return Ok(Err("harness: the saturating event is not decisively routed to the victim signal".into()));
+    }
+    // one event first: the worker takes it as a batch of its own and is then stuck on the held request,
+    // so everything after it stays in the queue
+    const VICTIM_BASE: u64 = 100_000;
+    emit_one(&otlp, VICTIM_BASE, &spec);
+    if !c.wait_until(|log| log.iter().any(|r| r.signal == Some(victim) && r.phase == collector::Phase::Held), Duration::from_secs(30)) {
+        c.shutdown();
+        return Ok(Err("harness: the request to be held did not arrive within 30 s".into()));
+    }
+    let n = OTLP_QUEUE_CAPACITY + case.beyond.max(1) as u64;
+    for i in 1..=n {
+        emit_one(&otlp, VICTIM_BASE + i, &spec);
+    }
+    // genuine log events (no kind), emitted last: once they are acknowledged everything that entered the
+    // logs channel before them has been sent too
+    let log_spec = DropShape::NoKind.spec();
+    let genuine: Vec<u64> = (1..=case.logs.max(1) as u64).collect();
+    for id in &genuine {
+        emit_one(&otlp, *id, &log_spec);
+    }
+    let all_logs_acked = |log: &[collector::RequestLog]| {
+        let mut seen = std::collections::BTreeSet::new();
+        for r in log.iter().filter(|r| r.signal == Some(Signal::Logs) && r.acked()) {
+            for rec in &r.records {
+                if let Some(id) = rec.case_id.as_ref().and_then(|s| s.parse::<u64>().ok()) {
+                    seen.insert(id);
+                }
+            }
+        }
+        genuine.iter().all(|id| seen.contains(id))
+    };
+    let delivered = c.wait_until(all_logs_acked, Duration::from_secs(60));
+    let log = c.requests();
+    c.shutdown();
+    drop(otlp);
+    if !delivered {
+        return Ok(Err("harness: the genuine log events were not acknowledged within 60 s although the logs endpoint is healthy".into()));
+    }
+    let mut counts: BTreeMap<u64, u32> = BTreeMap::new();
+    for r in log.iter().filter(|r| r.signal == Some(Signal::Logs)) {
+        if let Some(e) = &r.decode_error {
+            cx.fail("request-body-does-not-decode", format!("request {} to {}: {e}", r.seq, r.path))?;
+        }
+        for rec in &r.records {
+            let id = rec.case_id.as_ref().and_then(|s| s.parse::<u64>().ok()).or_else(|| rec.name.strip_prefix('c').and_then(|s| s.parse().ok()));
+            match id {
+                Some(id) if id >= VICTIM_BASE => {
+                    cx.fail(
+                        "C14/saturated-signal-event-exported-through-logs",
+                        format!(
+                            "with the {victim:?} queue full ({} events emitted against an endpoint that answers nothing) event {} — a qualified {}, which the {victim:?} signal takes — arrived at the LOGS endpoint as a {:?} record",
+                            n + 1,
+                            id - VICTIM_BASE,
+                            if case.spans { "span" } else { "metric sample" },
+                            rec.signal
+                        ),
+                    )?;
+                }
+                Some(id) => *counts.entry(id).or_default() += 1,
+                None => cx.fail("unattributed-record", format!("log record {:?} without case_id", rec.name))?,
+            }
+        }
+    }
+    for id in &genuine {
+        let n = counts.get(id).copied().unwrap_or(0);
+        if n != 1 {
+            cx.fail(if n == 0 { "event-lost-although-a-signal-can-take-it" } else { "exported-twice" }, format!("genuine log event {id} arrived {n} times at the logs endpoint"))?;
+        }
+    }
+    if let Some((id, _)) = counts.iter().find(|(id, _)| !genuine.contains(id)) {
+        cx.fail("unattributed-record", format!("log record for unknown case {id}"))?;
+    }
+    Ok(Ok(()))
+}
